@@ -8,6 +8,7 @@ mod csrdrv;
 mod der;
 mod desc;
 mod dndrv;
+mod keydrv;
 mod keys;
 mod ossl;
 mod pemx;
@@ -37,6 +38,8 @@ fn main() {
 		"csr-cases" => csrdrv::run_csr_cases(&args[2], &args[3]),
 		"crl-cases" => csrdrv::run_crl_cases(&args[2], &args[3]),
 		"strings" => strdrv::run(&args[2], &args[3]),
+		"keys" => keydrv::run_keys(&args[2], &args[3]),
+		"pem" => keydrv::run_pem(&args[2], &args[3]),
 		"dn-cases" => dndrv::run_cases(&args[2], &args[3]),
 		"dn-random" => dndrv::run_random(&args[2], args[3].parse().unwrap(), args[4].parse().unwrap()),
 		other => {
